@@ -500,3 +500,22 @@ Definition p_psd_strict (n : nat) (M : dmat) (m : dy) : N := ofb (dpd (S n) (dsh
 (** scaled_unit_shift on the packed vector: model (PSDIndex.v) at binary64, bit for bit *)
 Definition c_psd_unit_shift (n : nat) (z : list float) (a : float) (out : list float) : N :=
   c_bitsame (PSDIndex.psd_scaled_unit_shift F n z a) out.
+
+(** ** histories on one cone object: after every step the complete stored state must be the model
+    evaluated from that step's (s, z) alone (history independence) *)
+Definition c_soc_state (tol : float) (s z w lam : list float) (eta : float) (u v : list float) (d : float)
+           (hs : list float) : N :=
+  match soc_update_scaling F s z with
+  | None => 1%N
+  | Some sc =>
+      maxl [ cmpv tol (sc_w sc) w; cmpv tol (sc_lam sc) lam; cmpf_rel tol (sc_eta sc) eta;
+             match sc_sparse sc with
+             | Some sp => maxl [ cmpv tol (sp_u sp) u; cmpv tol (sp_v sp) v; cmpf_rel tol (sp_d sp) d;
+                                 cmpv tol (soc_get_Hs_sparse F (length s) (sc_eta sc) (sp_d sp)) hs ]
+             | None => cmax (ofb (Nat.eqb (length u) 0))
+                            (cmpv tol (soc_get_Hs_dense F (sc_w sc) (sc_eta sc)) hs)
+             end ]
+  end.
+Definition c_nn_state (tol : float) (s z w lam hs : list float) : N :=
+  let '(mw, ml) := nn_update_scaling F s z in
+  maxl [cmpv_el tol mw w; cmpv_el tol ml lam; cmpv_el tol (nn_get_Hs F mw) hs].
